@@ -13,7 +13,7 @@ var propOrder = []string{"C01", "C02", "C03", "C04", "C05", "C06", "C07", "C08",
 
 var props = map[string]*PropDef{
 	"C05": {
-		Rules:      []string{"TXN-1", "TXN-2", "TXN-3"},
+		Rules:      []string{"STALE-1", "TXN-1", "TXN-2", "TXN-3"},
 		Decided:    "(in progress)",
 		NotDecided: "(in progress)",
 		Technique:  "path-sensitive go/cfg dataflow",
